@@ -238,21 +238,33 @@ def paths_to(stmts, target_pred, max_paths=256):
             t = _subst(s.test, env)
             return _split_test(t, conds, lambda c: run(s.body, env, c), lambda c: run(s.orelse, env, c))
         if isinstance(s, ast.With):
-            return run(s.body, env, conds)
+            bound = {n.id for it in s.items if it.optional_vars is not None for n in ast.walk(it.optional_vars) if isinstance(n, ast.Name)}
+            return run(s.body, {k: v for k, v in env.items() if k not in bound}, conds)
         if isinstance(s, ast.Try):
             res = []
             for env2, c2 in run(s.body, env, conds):
                 res.extend(run(s.orelse, env2, c2))
             for h in s.handlers:
                 mark = ast.Name(id='<exception %s>' % (norm(h.type) if h.type is not None else ''), ctx=ast.Load())
-                res.extend(run(h.body, env, conds + [(mark, True)]))
+                res.extend(run(h.body, _forget(env, ast.Module(body=s.body, type_ignores=[])), conds + [(mark, True)]))
+            if s.finalbody:
+                res2 = []
+                for env2, c2 in res:
+                    res2.extend(run(s.finalbody, env2, c2))
+                res = res2
             return res
         if isinstance(s, (ast.For, ast.While)):
             # a nested loop: its body may contain the target; conditions inside are local to it
             inner = paths_to(s.body, target_pred, max_paths)
             for st_, cs in inner:
                 found.append((st_, conds + cs))
-            return [(env, conds)]
-        return [(env, conds)]
+            return [(_forget(env, s), conds)]
+        return [(_forget(env, s), conds)]
+
+    def _forget(env, s):
+        stored = {n.id for n in ast.walk(s) if isinstance(n, ast.Name) and isinstance(n.ctx, (ast.Store, ast.Del))}
+        if not stored & set(env):
+            return env
+        return {k: v for k, v in env.items() if k not in stored}
     run(stmts, {}, [])
     return found
